@@ -37,7 +37,10 @@ func New(root string) (*Env, error) {
 		return nil, err
 	}
 	cli.InitLogging(1) // errors only: the interpreter logs a stack trace at debug level for every failed program
-	state := core.NewDefaultBuildState()
+	config := core.DefaultConfiguration()
+	// what reading a .plzconfig would leave there by default; gives CONFIG.BUILD_FILE_NAMES two items
+	config.Parse.BuildFileName = []string{"BUILD", "BUILD.plz"}
+	state := core.NewBuildState(config)
 	p := asp.NewParser(state)
 	names, err := rules.AllAssets()
 	if err != nil {
